@@ -385,7 +385,7 @@ impl UninitializedJxlImage {
 
         let image_header = Arc::new(image_header);
         let skip_bytes = if image_header.metadata.preview.is_some() {
-            let frame = match Frame::parse(
+            let frame = match Frame::parse_preview(
                 &mut bitstream,
                 FrameContext {
                     image_header: image_header.clone(),
